@@ -55,10 +55,10 @@ namespace igris
             if (this == &other)
                 return *this;
             clear();
-            m_size = other.m_size;
-            for (std::size_t pos = 0; pos < m_size; ++pos)
+            for (std::size_t pos = 0; pos < other.m_size; ++pos)
             {
                 new (&_data[pos]) T(other[pos]);
+                ++m_size;
             }
             return *this;
         }
@@ -68,10 +68,10 @@ namespace igris
             if (this == &other)
                 return *this;
             clear();
-            m_size = other.m_size;
-            for (std::size_t pos = 0; pos < m_size; ++pos)
+            for (std::size_t pos = 0; pos < other.m_size; ++pos)
             {
                 new (&_data[pos]) T(std::move(other[pos]));
+                ++m_size;
             }
             other.clear();
             return *this;
